@@ -126,12 +126,12 @@ func c18Read(size int64, logBlock uint32, is64 bool, descSize uint16) {
 	vp.AllocLimit(limit)
 	if binary.LittleEndian.Uint32(sb[0x20:]) == 0 {
 		// KF-C18-8: blocks per group = 0: division by zero in blockGroupCount
-		vp.KnownPanic("KF-C18-8", "superblock).blockGroupCount)")
+		vp.KnownPanic("KF-C18-8", "superblock).blockGroupCount) | integer divide by zero")
 	}
 	if is64 {
 		if descSize < 32 {
 			// KF-C18-9: 64-bit feature with a descriptor size below 32: the descriptor parser reads 32 bytes anyway
-			vp.KnownPanic("KF-C18-9", "ext4.groupDescriptorFromBytes)")
+			vp.KnownPanic("KF-C18-9", "ext4.groupDescriptorFromBytes) | slice bounds out of range")
 		}
 	}
 	vp.NoPanic()
@@ -165,7 +165,7 @@ func c18Gdt(count int, ct gdtChecksumType) {
 	b := all[:n:n]
 	vp.Unwind(count + 3)
 	if gdSize < 32 {
-		vp.KnownPanic("KF-C18-9", "ext4.groupDescriptorFromBytes)")
+		vp.KnownPanic("KF-C18-9", "ext4.groupDescriptorFromBytes) | slice bounds out of range")
 	}
 	vp.NoPanic()
 	gds, err := groupDescriptorsFromBytes(b, gdSize, vp.U32("seed"), ct)
@@ -196,13 +196,13 @@ func VP_C18_ext4_inode() {
 	if n >= 128 {
 		if n < 256 {
 			// KF-C18-10: inode sizes 128..255 (128 is a regular mke2fs choice): fields up to 0x100 are read unconditionally
-			vp.KnownPanic("KF-C18-10", "ext4.inodeFromBytes)")
+			vp.KnownPanic("KF-C18-10", "ext4.inodeFromBytes) | slice bounds out of range")
 		}
 	}
 	ents := binary.LittleEndian.Uint16(all[0x28+2:])
 	if ents > 4 {
 		// KF-C18-11: extent header in the inode announcing more than the 4 entries that fit in 60 bytes
-		vp.KnownPanic("KF-C18-11", "ext4.parseExtents)")
+		vp.KnownPanic("KF-C18-11", "ext4.parseExtents) | slice bounds out of range")
 	}
 	vp.NoPanic()
 	in, err := inodeFromBytes(b, sb, 2)
@@ -224,7 +224,7 @@ func c18Extents(n int) {
 	vp.MaxLoop(n / 12)
 	if 12+12*ents > n {
 		// KF-C18-11: more entries announced than fit in the node
-		vp.KnownPanic("KF-C18-11", "ext4.parseExtents)")
+		vp.KnownPanic("KF-C18-11", "ext4.parseExtents) | slice bounds out of range")
 	}
 	vp.NoPanic()
 	node, err := parseExtents(b, 1024, vp.U32("start"), vp.U32("count"))
@@ -298,8 +298,7 @@ func c18DirLinear(n int) {
 	vp.Unwind(n/12 + 4)
 	vp.MaxLoop(n/12 + 1)
 	// KF-C18-13: rec_len or name_len reaching beyond the end of the directory data are not checked
-	vp.KnownPanic("KF-C18-13", "ext4.parseDirEntriesLinear)")
-	vp.KnownPanic("KF-C18-13", "ext4.directoryEntryFromBytes)")
+	vp.KnownPanic("KF-C18-13", "ext4.parseDirEntriesLinear) | slice bounds out of range")
 	vp.NoPanic()
 	ents, err := parseDirEntriesLinear(b, false, uint32(n), 2, 0, 0)
 	vp.AllowPanic()
@@ -361,7 +360,7 @@ func VP_C18_ext4_dir_checksummed() {
 	vp.Unwind(10)
 	if n%bs != 0 {
 		// KF-C18-14: directory size not a multiple of the block size
-		vp.KnownPanic("KF-C18-14", "ext4.parseDirEntriesLinear)")
+		vp.KnownPanic("KF-C18-14", "ext4.parseDirEntriesLinear) | slice bounds out of range")
 	}
 	vp.NoPanic()
 	_, err := parseDirEntriesLinear(b, true, bs, 2, 0, seed)
@@ -382,7 +381,7 @@ func VP_C18_ext4_dx_root() {
 	vp.AllocCap(16)
 	if 0x28+8*(cnt-1) > n {
 		// KF-C18-15: dx entry count beyond the block
-		vp.KnownPanic("KF-C18-15", "ext4.parseDirectoryTreeRoot)")
+		vp.KnownPanic("KF-C18-15", "ext4.parseDirectoryTreeRoot) | slice bounds out of range")
 	}
 	vp.NoPanic()
 	root, err := parseDirectoryTreeRoot(b, vp.Bool("largeDir"))
@@ -404,7 +403,7 @@ func VP_C18_ext4_dx_node() {
 	vp.Unwind(12)
 	vp.AllocCap(16)
 	if 0x10+8*(cnt-1) > n {
-		vp.KnownPanic("KF-C18-15", "ext4.parseDirectoryTreeNode)")
+		vp.KnownPanic("KF-C18-15", "ext4.parseDirectoryTreeNode) | slice bounds out of range")
 	}
 	vp.NoPanic()
 	node, err := parseDirectoryTreeNode(b)
@@ -427,10 +426,9 @@ func VP_C18_ext4_dx_walk() {
 	vp.Unwind(8)
 	if blk >= 3 {
 		// KF-C18-16: dx child block number beyond the directory data
-		vp.KnownPanic("KF-C18-16", "ext4.parseDirEntriesHashed)")
+		vp.KnownPanic("KF-C18-16", "ext4.parseDirEntriesHashed) | slice bounds out of range")
 	}
-	vp.KnownPanic("KF-C18-13", "ext4.parseDirEntriesLinear)")
-	vp.KnownPanic("KF-C18-13", "ext4.directoryEntryFromBytes)")
+	vp.KnownPanic("KF-C18-13", "ext4.parseDirEntriesLinear) | slice bounds out of range")
 	vp.NoPanic()
 	_, err := parseDirEntriesHashed(b, 0, root, bs, false, 2, 0, 0)
 	vp.AllowPanic()
@@ -476,13 +474,9 @@ func VP_C18_ext4_read_inode_raw() {
 	sb := &superblock{blockSize: 1024, inodeSize: 256, inodesPerGroup: ipg}
 	fs := &FileSystem{superblock: sb, backend: dev, size: 64 << 10,
 		groupDescriptors: &groupDescriptors{descriptors: []groupDescriptor{{inodeTableLocation: 5}}}}
-	if ipg == 0 {
-		// KF-C18-17: inodes per group = 0
-		vp.KnownPanic("KF-C18-17", "ext4.FileSystem).readInodeRaw)")
-	} else if (num-1)/ipg >= 1 {
-		// KF-C18-18: inode number beyond the last block group
-		vp.KnownPanic("KF-C18-18", "ext4.FileSystem).readInodeRaw)")
-	}
+	// KF-C18-17: inodes per group = 0 (divide by zero); inode number beyond the last block group (index out of range)
+	vp.KnownPanic("KF-C18-17", "ext4.FileSystem).readInodeRaw) | integer divide by zero")
+	vp.KnownPanic("KF-C18-17", "ext4.FileSystem).readInodeRaw) | index out of range")
 	vp.NoPanic()
 	b, err := fs.readInodeRaw(num)
 	vp.AllowPanic()
@@ -541,7 +535,7 @@ func c18FileRead(bs uint32, buflen int) {
 	vp.AllocCap(buflen)
 	if bs == 0 {
 		// KF-C18-19: block size 0 (s_log_block_size = 22 makes 2^32 wrap to 0)
-		vp.KnownPanic("KF-C18-19", "ext4.File).Read)")
+		vp.KnownPanic("KF-C18-19", "ext4.File).Read) | integer divide by zero")
 	}
 	vp.NoPanic()
 	n, err := fl.Read(b)
